@@ -223,6 +223,8 @@ func (s *Service) GetJournals(ctx context.Context, tagsCond *lql.Source, maxLimi
 		j, err1 = s.Journals.GetOrCreate(ctx, jrnl)
 		if err1 != nil {
 			s.logger.Error("GetJournals(): Could not create of get partition instance for ", jrnl, ", err=", err1)
+			// with VF_DO_NOT_RELEASE the visited partition stays acquired for us; it is not in res, so give it back here
+			s.TIndex.Release(jrnl)
 			return false
 		}
 
